@@ -1,6 +1,7 @@
 package main
 
 import (
+	"sort"
 	"fmt"
 	"go/token"
 	"go/types"
@@ -842,6 +843,7 @@ func (g *Gen) doMapUpdate(st *BState, in *ssa.MapUpdate) {
 	mt := in.Map.Type().Underlying().(*types.Map)
 	m, k, v := g.val(in.Map), g.val(in.Key), g.val(in.Value)
 	g.safety(st, "S.mapw", in.Pos(), fmt.Sprintf("(not (= %s 0))", m))
+	g.storeSiteObls(st, in)
 	dom, val, ln := g.mapRegions(mt)
 	fresh := g.allocs[in.Map]
 	g.frameCheck(st, dom, m, fresh, in.Pos())
@@ -985,4 +987,54 @@ func (g *Gen) singleDef(obj types.Object) ssa.Value {
 		}
 	}
 	return g.singleDefs[obj]
+}
+
+// storeSiteObls: call-site style clauses on map stores `m[k] = v` (label mapstore#N, N by source order):
+// the clause must hold just before the store, over the function's locals and arg_map, arg_key, arg_val.
+func (g *Gen) storeSiteObls(st *BState, in *ssa.MapUpdate) {
+	if g.con == nil || len(g.con.CallSites) == 0 {
+		return
+	}
+	type site struct {
+		in  ssa.Instruction
+		pos token.Pos
+	}
+	var sites []site
+	for _, b := range g.fn.Blocks {
+		for _, x := range b.Instrs {
+			if mu, ok := x.(*ssa.MapUpdate); ok {
+				sites = append(sites, site{mu, mu.Pos()})
+			}
+		}
+	}
+	sort.SliceStable(sites, func(i, j int) bool { return sites[i].pos < sites[j].pos })
+	n := 0
+	for i, s := range sites {
+		if s.in == ssa.Instruction(in) {
+			n = i + 1
+		}
+	}
+	label := fmt.Sprintf("mapstore#%d", n)
+	a, pos := g.anchor(in.Pos())
+	for _, cl := range g.con.CallSites {
+		if cl.Label != label {
+			continue
+		}
+		cl.Loop = 1 // seen
+		env := g.baseEnv(st.heap, g.entryHeap)
+		params := env.vars
+		env.vars = map[string]EnvVal{}
+		g.namedValues(in.Block(), env)
+		for k, ev := range params {
+			if _, ok := env.vars[k]; !ok {
+				env.vars[k] = ev
+			}
+		}
+		g.addrNames(in.Block(), true, env)
+		env.vars["arg_map"] = EnvVal{term: g.val(in.Map), ty: VType{Go: in.Map.Type()}}
+		env.vars["arg_key"] = EnvVal{term: g.val(in.Key), ty: VType{Go: in.Key.Type()}}
+		env.vars["arg_val"] = EnvVal{term: g.val(in.Value), ty: VType{Go: in.Value.Type()}}
+		t := g.trBool(cl.Expr, env, cl)
+		g.addObl(st, "A", a+":"+cl.Name, pos, g.clauseProps(cl, g.allProps()), t, cl.Src)
+	}
 }
